@@ -1,6 +1,6 @@
 (* EvalProofs: facts about the glue of the evaluation routines (C04). *)
 From Coq Require Import List ZArith Reals Lra Lia Psatz Bool Permutation.
-From RSA Require Import Prelude Vec VecR ListLib RdmModel CalcProofs CompareModel CompareProofs UnbalProofs NoiseProofs
+From RSA Require Import Prelude Vec VecR ListLib LinAlg RdmModel CalcProofs CompareModel CompareProofs UnbalProofs NoiseProofs
   TransformProofs FitProofs InferModel InferProofs EvalModel.
 Import ListNotations.
 
@@ -139,4 +139,54 @@ Proof.
   intros Hl Hn. assert (Hne : x <> []) by (intros E; subst; cbn in Hn; lia).
   rewrite cov1_contrast_is_variance_of_difference by assumption.
   apply cov1_variance_nonneg. rewrite vsub_length by exact Hl. exact Hn.
+Qed.
+
+(* ---------- from the stored covariance of a bootstrap evaluation to the reported variances ---------- *)
+Lemma entry_cov_matrix rows i j : (i < length rows)%nat -> (j < length rows)%nat ->
+  entry ROps (cov_matrix ROps rows) i j = cov1 ROps (nth i rows []) (nth j rows []).
+Proof.
+  intros Hi Hj. unfold entry, cov_matrix, nthF.
+  rewrite (nth_map_in (fun x => map (fun y => cov1 ROps x y) rows) rows i [] []) by exact Hi.
+  rewrite (nth_map_in (fun y => cov1 ROps (nth i rows []) y) rows j [] (n0 ROps)) by exact Hj. reflexivity.
+Qed.
+
+(* the difference variance that extract_variances reads off the covariance across resamples is the sample variance of the
+   per-resample differences of the two models: never negative *)
+Theorem reported_difference_variance rows i j :
+  (i < length rows)%nat -> (j < length rows)%nat ->
+  length (nth i rows []) = length (nth j rows []) -> nth i rows [] <> [] ->
+  contrast_var ROps (cov_matrix ROps rows) (i, j) =
+  cov1 ROps (rvsub (nth i rows []) (nth j rows [])) (rvsub (nth i rows []) (nth j rows [])).
+Proof.
+  intros Hi Hj Hl Hne. unfold contrast_var. cbn [fst snd]. rewrite !entry_cov_matrix by assumption.
+  rewrite <- cov1_contrast_is_variance_of_difference by assumption.
+  rewrite (cov1_symmetric (nth j rows []) (nth i rows [])) by (symmetry; exact Hl). rsimp2. ring.
+Qed.
+
+Theorem reported_difference_variance_nonneg rows i j :
+  (i < length rows)%nat -> (j < length rows)%nat ->
+  length (nth i rows []) = length (nth j rows []) -> (2 <= length (nth i rows []))%nat ->
+  0 <= contrast_var ROps (cov_matrix ROps rows) (i, j).
+Proof.
+  intros Hi Hj Hl Hn. assert (Hne : nth i rows [] <> []) by (intros E; rewrite E in Hn; cbn in Hn; lia).
+  rewrite reported_difference_variance by assumption. apply cov1_variance_nonneg. rewrite vsub_length by exact Hl. exact Hn.
+Qed.
+
+(* the same for the variance of model minus noise ceiling (rows n_model, n_model + 1 of the covariance) *)
+Theorem reported_noise_ceiling_variance rows i k :
+  (i < length rows)%nat -> (k < length rows)%nat ->
+  length (nth i rows []) = length (nth k rows []) -> nth i rows [] <> [] ->
+  nc_var ROps (cov_matrix ROps rows) i k =
+  cov1 ROps (rvsub (nth i rows []) (nth k rows [])) (rvsub (nth i rows []) (nth k rows [])).
+Proof.
+  intros Hi Hk Hl Hne. unfold nc_var. rewrite !entry_cov_matrix by assumption.
+  rewrite <- cov1_contrast_is_variance_of_difference by assumption. rsimp2. ring.
+Qed.
+
+(* the n/(n-1) factor never shrinks a variance *)
+Theorem bessel_at_least_one n : (2 <= n)%nat -> 1 <= bessel ROps n.
+Proof.
+  intros H. rewrite bessel_R by exact H.
+  assert (2 <= INR n) by (replace 2 with (INR 2) by reflexivity; apply le_INR; exact H).
+  apply Rmult_le_reg_r with (r := INR n - 1); [lra|]. unfold Rdiv. rewrite Rmult_assoc, Rinv_l by lra. lra.
 Qed.
